@@ -225,7 +225,11 @@ func runCheck(lockMode bool, repo, verif, prop, tier, only, dump string, useCach
 			}
 		}
 	}
-	solveAll(pf, jobs, runtime.NumCPU())
+	workers := runtime.NumCPU() / 2
+	if workers < 2 {
+		workers = 2
+	}
+	solveAll(pf, jobs, workers)
 	solveS := time.Since(t0).Seconds() - loadS - genS
 
 	if lockMode {
